@@ -11,7 +11,7 @@ from vt import worlds
 
 ID = 'C14'
 LEVEL = 'exploration'
-RULE = ('trees = every combination of <=K root entries out of 19 (test-named '
+RULE = ('trees = every combination of <=K root entries out of 23 (four symbolic links to outside directories - identifier, non-identifier and ignored link names -, test-named '
         'and other files, a tests/ directory in 4 variants (with/without '
         '__init__.py, nested sub dir, a tests-pattern module inside), a pkg/ '
         'directory in 4 variants (package, namespace package, nested tests '
@@ -22,7 +22,7 @@ RULE = ('trees = every combination of <=K root entries out of 19 (test-named '
         '-s, --ignore_dir) x 3 os.walk listing orders (identity, reversed, '
         'rotated, through a proxy for find.os); every module logs its import; '
         'the sequence of imported files must equal the reference predicate\'s '
-        'sorted, de-duplicated, filtered list. non-trivial = >=2 candidate '
+        'sorted, de-duplicated, filtered list, and --list-tests must show each loaded module\'s test exactly once. non-trivial = >=2 candidate '
         'files in the tree')
 ASSUMPTIONS = [
     'the reference predicate is written from the property statement (identifier directory names, ignored names, tests-pattern modules, test-file-pattern files inside tests-pattern packages with __init__.py)',
@@ -54,7 +54,14 @@ FILES = {
     'd:foo-bar': ['foo-bar/tests.py'], 'd:.git': ['.git/tests.py'],
     'd:node_modules': ['node_modules/tests.py'], 'd:CVS': ['CVS/tests.py'],
     'd:1abc': ['1abc/tests.py'], 'd:__pycache__': ['__pycache__/tests.py'],
+    # symbolic links to directories outside the tree: followed like
+    # directories when their *link name* is an identifier and not ignored
+    'l:lnk': ['lnk/tests.py', 'lnk/sub/tests.py'],
+    'l:my-data': ['my-data/tests.py'],
+    'l:_darcs': ['_darcs/tests.py'],
+    'l:zlink': ['zlink/tests/__init__.py', 'zlink/tests/test_z.py'],
 }
+SYMLINKS = {'lnk', 'my-data', '_darcs', 'zlink'}
 ITEMS = list(FILES)
 IGNORE_FOLDERS = {'.git', 'node_modules', '__pycache__'}
 IGNORE_DIR = {'.git', '.svn', 'CVS', '{arch}', '.arch-ids', '_darcs'}
@@ -137,8 +144,10 @@ def setup_worker():
     atexit.register(env.rmtree, ROOT)
 
 
-def reference(files, root, cfg):
-    """Ordered list of (abs file, module name) the statement demands."""
+def reference(files, root, cfg, links_first=False):
+    """Ordered list of (abs file, module name) the statement demands.
+    ``links_first``: the order in which symbolically linked directories come
+    before their real siblings (see known_findings.json)."""
     c = CONFIGS[cfg]
     tests_pat = re.compile(c.get('tests_pattern', '^tests$')).search
     file_pat = re.compile(c.get('file_pattern', '^test')).search
@@ -175,7 +184,11 @@ def reference(files, root, cfg):
                 found.add(os.path.join(d, f))
         for f in sorted(found):
             yield f
-        for sd in subdirs(d):
+        sds = subdirs(d)
+        if links_first:
+            sds = ([x for x in sds if d == root and os.path.basename(x) in SYMLINKS] +
+                   [x for x in sds if not (d == root and os.path.basename(x) in SYMLINKS)])
+        for sd in sds:
             b = os.path.basename(sd)
             if not re.match(r'[_a-zA-Z]\w*$', b) or b in IGNORE_FOLDERS or b in ignore:
                 continue
@@ -238,8 +251,16 @@ def run_case(case):
     root = os.path.join(ROOT, 'r')
     env.rmtree(root)
     os.makedirs(root)
+    ext = os.path.join(ROOT, 'ext')
+    env.rmtree(ext)
     for f in files:
         p = os.path.join(root, f)
+        top = f.split('/')[0]
+        if top in SYMLINKS:
+            if not os.path.islink(os.path.join(root, top)):
+                os.makedirs(os.path.join(ext, top))
+                os.symlink(os.path.join(ext, top), os.path.join(root, top))
+            p = os.path.join(ext, f)
         os.makedirs(os.path.dirname(p), exist_ok=True)
         with open(p, 'w') as fh:
             fh.write(MODSRC if f.endswith('.py') and not f.endswith('__init__.py') else '')
@@ -291,12 +312,24 @@ def run_case(case):
             viol.append({'clause': clause, 'sig': sig,
                          'detail': 'files=%s cfg=%s order=%s: imported %s, reference %s (extra %s missing %s twice %s)' % (files, cfg, od, g, w, extra, miss, twice)})
         elif g != w:
-            viol.append({'clause': 'discovery_order', 'sig': sig,
-                         'detail': 'files=%s cfg=%s order=%s: imported in order %s, sorted reference %s' % (files, cfg, od, g, w)})
+            w2 = [rel(f) for f, _ in reference(files, root, cfg, links_first=True)]
+            if g == w2:
+                viol.append({'clause': 'symlinked_dirs_listed_before_real_siblings', 'sig': {},
+                             'detail': 'files=%s cfg=%s order=%s: imported in order %s, sorted by path would be %s' % (files, cfg, od, g, w)})
+            else:
+                viol.append({'clause': 'discovery_order', 'sig': sig,
+                             'detail': 'files=%s cfg=%s order=%s: imported in order %s, sorted reference %s' % (files, cfg, od, g, w)})
+        # every loaded module contributes its one test exactly once
+        listed = re.findall(r'^\s+test_it \((\S+)\.T\.test_it\)\s*$', res.text, re.M)
+        if sorted(listed) != sorted(names) and not res.import_errors:
+            twice = sorted({x for x in listed if listed.count(x) > 1})
+            viol.append({'clause': 'tests_listed_twice' if twice else 'listed_tests_differ', 'sig': sig,
+                         'detail': 'files=%s cfg=%s order=%s: --list-tests shows the tests of modules %s, reference modules %s\n%s' % (files, cfg, od, sorted(listed), sorted(names), res.text[-600:])})
         if res.import_errors:
             viol.append({'clause': 'import_error', 'sig': sig,
                          'detail': 'files=%s cfg=%s: %s' % (files, cfg, res.text[-500:])})
     return {'nontrivial': len([f for f in files if f.endswith('.py') and not f.endswith('__init__.py')]) >= 2,
             'violations': viol, 'outcome': (cfg, len(got) > 0),
             'counters': {'modules_filtered': 1 if CONFIGS[cfg].get('m') else 0,
-                         'trees_with_skipped_dirs': 1 if any(ITEMS[i].startswith('d:') for i in combo) else 0}}
+                         'trees_with_skipped_dirs': 1 if any(ITEMS[i].startswith('d:') for i in combo) else 0,
+                         'trees_with_symlinks': 1 if any(ITEMS[i].startswith('l:') for i in combo) else 0}}
